@@ -7,12 +7,13 @@ common.pin_environment()
 import importlib
 pid = sys.argv[1]
 mod = importlib.import_module(f"props.{pid.lower()}")
-seed = 0
+seed = common.seed_from_env(0)
 rng = random.Random(seed * 1000003 + sum(map(ord, pid)))
-cases = mod.generate("quick", rng)
+cases = [c for c in mod.generate(os.environ.get("TIER", "quick"), rng) if c.get("kind") is None]
 obs = [mod.run_impl(c) for c in cases]
-terms = [mod.to_coq(c, o) for c, o in zip(cases, obs)]
-fails, err = common.run_coq_cases(mod.COQ_MODULE, terms, shard=60)
+import heapdrv
+terms = [heapdrv.cq_history(o["concrete"], o["obs"]) for o in obs]
+fails, err = common.run_coq_cases("Corr.HeapC", terms, shard=60)
 print("fails", len(fails), err)
 limit = int(sys.argv[2]) if len(sys.argv) > 2 else 3
 from collections import Counter
